@@ -732,12 +732,18 @@ pub fn run(args: &Args, r: &mut Report) {
         if etag_override {
             sb = sb.etag_override(Some("deadbeef:cafe".to_string()));
         }
+        // a server that insists on CUP behaves the same towards a client that uses it (also together with a
+        // forced ETag)
+        let require = cup && keys.server_has_client_latest && rng.bool();
+        if require {
+            sb = sb.require_cup(true);
+        }
         let server = Arc::new(TMutex::new(sb.build().unwrap()));
         let mut script = Script::default();
         script.checks.push(CheckScript { results: vec![InstRes::Installed; if mixed { 1 } else { n_apps }], ..Default::default() });
         let setup = Setup { service_url: url.clone(), apps: apps.clone(), cup, start_mode: rng.bool(), ..Default::default() };
         let mut case = FlowCase::new(setup, script);
-        case.shape = vec!["sm".into(), if mixed { "mixed".into() } else { kind_name(kind).to_string() }, url_class.into(), keys.label.into(), format!("cup={} override={}", cup, etag_override)];
+        case.shape = vec!["sm".into(), if mixed { "mixed".into() } else { kind_name(kind).to_string() }, url_class.into(), keys.label.into(), format!("cup={} override={} require={}", cup, etag_override, require)];
         let w = make_world(&case);
         {
             let mut g = lock(&w);
